@@ -5,18 +5,21 @@ import RallyProofs.Ctx
 
 Model: `RallyModel/Ctx.lean` (request-context dicts, asyncio tasks with a context-variable pointer copied at
 task creation, events `client / spawn / open_ / wireStart / wireEnd / close` in **any** interleaving that keeps
-the clock monotone).  `runCtx false` is the current code, `runCtx true` the proposed patch.
+the clock monotone).  `runCtx true` is the CURRENT code (esrally/client/context.py since fix 65587fe);
+`runCtx false` is the code as pinned before that fix and appears only in the historical `…_pinned` results.
 
 * what a context *should* carry: `specStart s c` / `specStop s c` = minimum of the wire starts / maximum of the wire
   ends issued while `c` or a descendant of `c` was the current context (`spec_is_earliest_latest`).
 * `settled s c`: every strict descendant of `c` has exited (the moment `AsyncExecutor` / `RequestTiming` read the
   timing, and any later moment).   `s.late = false`: nothing was written into / on behalf of an exited context
   (structured concurrency: `Composite.run_stream` awaits its sub-streams).
-* `sub_request_exact`  — holds for every trace, current and patched code.
-* `client_isolation`   — holds for every trace, current and patched code.
-* `OuterSpan false`    — the full statement for the current code is **false** (`outer_span_false`,
-  `outer_span_false_end`, `outer_span_false_empty_child`); `outer_span_partial` proves it for sequential nesting.
-* `OuterSpan true`     — the full statement **holds** for the proposed patch (`outer_span_patched`).
+* `outer_span`         — the full statement, for the current code: any tree, any number of tasks and clients, any
+  admissible interleaving.
+* `sub_request_exact`  — every trace (stated for both code versions).
+* `client_isolation`   — every trace (stated for both code versions).
+* historical (`…_pinned`, code before 65587fe): the full statement was **false** (`outer_span_false_pinned`,
+  `outer_span_false_end_pinned`, `outer_span_false_empty_child_pinned`; the same traces are regression cases in
+  corpus/C18) and held only for sequential nesting (`outer_span_partial_pinned`).
 -/
 namespace C18
 open Ctx
@@ -32,8 +35,8 @@ theorem spec_is_earliest_latest (s : St) (c : Nat) :
 
 /-! ### sub_request_exact -/
 
-/-- **sub_request_exact**: in every reachable state (any interleaving, any number of tasks and clients, current
-    or patched code) a context that has no child context carries exactly the first start and the last end of
+/-- **sub_request_exact**: in every reachable state (any interleaving, any number of tasks and clients; `fx = true` is the
+    current code, the statement also holds for the pre-fix code) a context that has no child context carries exactly the first start and the last end of
     the wire requests issued while it was itself the current context — nothing of any other context. -/
 theorem sub_request_exact (fx : Bool) (evs : List CEv) (s : St) (c : Nat) (r : Rec)
     (hrun : runCtx fx evs = .ok s) (hc : s.ctxs c = some r) (hleaf : isLeaf s c = true) :
@@ -84,29 +87,44 @@ theorem client_isolation_two_runs (fx : Bool) (P : Nat → Bool) (evs₁ evs₂ 
 
 /-! ### outer_span -/
 
-/-- **outer_span, full statement**: whenever every strict descendant of a context has exited and nothing was
-    written late, the context carries the earliest start and the latest end of all wire requests issued on its
-    behalf. -/
+/-- the outer-span statement for the code version `fx`: whenever every strict descendant of a context has exited
+    and nothing was written late, the context carries the earliest start and the latest end of all wire requests
+    issued on its behalf. -/
 def OuterSpan (fx : Bool) : Prop :=
   ∀ (evs : List CEv) (s : St) (c : Nat) (r : Rec),
     runCtx fx evs = .ok s → s.late = false → s.ctxs c = some r → settled s c = true →
     r.getStart = specStart s c ∧ r.getStop = specStop s c
 
+/-- **outer_span** (current code, full statement): for every tree of nested contexts, every number of tasks and
+    clients, every admissible interleaving: once every strict descendant of a context has exited (and nothing
+    was written into an exited context), it carries the earliest start and the latest end of all wire requests
+    issued on its behalf. -/
+theorem outer_span : OuterSpan true := by
+  intro evs s c r hrun hl hc hset
+  exact pinv_settled (pinv_runFrom pinv_init hrun hl) hc hset
+
+/-! ### historical: the code before fix 65587fe (`runCtx false`)
+
+Before the fix `update_request_start` kept the first value written and `update_request_end` the last one, also
+on propagation from nested contexts (including `None`).  The following results document that finding; the three
+traces are regression cases of the correspondence check (corpus/C18) and come out right for the current code
+(examples below). -/
+
 /-- Witness 1 (real: two concurrent streams of a composite): stream task 1 sends at 1 and is answered at 5,
     stream task 2 sends at 2, is answered at 3 and leaves its `RequestTiming` context first.
-    The outer context then holds start 2 — the earliest start is 1. -/
+    Pre-fix, the outer context then held start 2 — the earliest start is 1. -/
 def wStart : List CEv :=
   [.client 0, .open_ 0 10, .spawn 0 1, .spawn 0 2, .open_ 1 11, .open_ 2 12,
    .wireStart 1 1, .wireStart 2 2, .wireEnd 2 3, .close 2, .wireEnd 1 5, .close 1]
 
-theorem wStart_facts : chk false wStart (fun s =>
+theorem wStart_facts_pinned : chk false wStart (fun s =>
     !s.late && !s.emptyClose && settled s 10 && view s 10 == some (some 2, some 5, some 1, some 5)) = true := by
   decide
 
-/-- **negation of the full statement for the current code** -/
-theorem outer_span_false : ¬ OuterSpan false := by
+/-- the full statement was false for the pre-fix code -/
+theorem outer_span_false_pinned : ¬ OuterSpan false := by
   intro h
-  obtain ⟨s, hrun, hf⟩ := chk_ok wStart_facts
+  obtain ⟨s, hrun, hf⟩ := chk_ok wStart_facts_pinned
   simp only [Bool.and_eq_true, Bool.not_eq_true', beq_iff_eq] at hf
   obtain ⟨⟨⟨hl, _⟩, hs⟩, hv⟩ := hf
   unfold view at hv
@@ -121,19 +139,19 @@ theorem outer_span_false : ¬ OuterSpan false := by
     exact absurd this (by decide)
 
 /-- Witness 2: the child that received the *latest* answer (5) leaves before a child whose answer came at 3:
-    the outer context ends at 3. -/
+    pre-fix, the outer context ended at 3. -/
 def wEnd : List CEv :=
   [.client 0, .open_ 0 10, .spawn 0 1, .spawn 0 2, .open_ 1 11, .open_ 2 12,
    .wireStart 1 1, .wireStart 2 2, .wireEnd 2 3, .wireEnd 1 5, .close 1, .close 2]
 
-theorem wEnd_facts : chk false wEnd (fun s =>
+theorem wEnd_facts_pinned : chk false wEnd (fun s =>
     !s.late && !s.emptyClose && settled s 10 && view s 10 == some (some 1, some 3, some 1, some 5)) = true := by
   decide
 
-theorem outer_span_false_end :
+theorem outer_span_false_end_pinned :
     ∃ evs s c r, runCtx false evs = .ok s ∧ s.late = false ∧ s.ctxs c = some r ∧ settled s c = true ∧
       r.getStop ≠ specStop s c := by
-  obtain ⟨s, hrun, hf⟩ := chk_ok wEnd_facts
+  obtain ⟨s, hrun, hf⟩ := chk_ok wEnd_facts_pinned
   simp only [Bool.and_eq_true, Bool.not_eq_true', beq_iff_eq] at hf
   obtain ⟨⟨⟨hl, _⟩, hs⟩, hv⟩ := hf
   unfold view at hv
@@ -145,20 +163,20 @@ theorem outer_span_false_end :
     obtain ⟨_, h2, _, h4⟩ := hv
     exact ⟨wEnd, s, 10, r, hrun, hl, hc, hs, by rw [h2, h4]; decide⟩
 
-/-- Witness 3 (no concurrency at all): a nested context in which no wire request was issued exits — its `None`s
-    are written into the parent: the parent's end becomes `None` and its start can never be set any more. -/
+/-- Witness 3 (no concurrency at all): a nested context in which no wire request was issued exits — pre-fix its
+    `None`s were written into the parent: the parent's end became `None` and its start could never be set again. -/
 def wEmpty : List CEv :=
   [.client 0, .open_ 0 10, .open_ 0 11, .close 0, .wireStart 0 1, .wireEnd 0 2]
 
-theorem wEmpty_facts : chk false wEmpty (fun s =>
+theorem wEmpty_facts_pinned : chk false wEmpty (fun s =>
     !s.late && s.emptyClose && settled s 10 && wEmpty.all (fun e => !e.isSpawn) &&
     view s 10 == some (none, some 2, some 1, some 2)) = true := by
   decide
 
-theorem outer_span_false_empty_child :
+theorem outer_span_false_empty_child_pinned :
     ∃ evs s c r, runCtx false evs = .ok s ∧ (∀ e ∈ evs, e.isSpawn = false) ∧ s.late = false ∧
       s.ctxs c = some r ∧ settled s c = true ∧ r.getStart ≠ specStart s c := by
-  obtain ⟨s, hrun, hf⟩ := chk_ok wEmpty_facts
+  obtain ⟨s, hrun, hf⟩ := chk_ok wEmpty_facts_pinned
   simp only [Bool.and_eq_true, Bool.not_eq_true', beq_iff_eq, List.all_eq_true] at hf
   obtain ⟨⟨⟨⟨hl, _⟩, hs⟩, hns⟩, hv⟩ := hf
   unfold view at hv
@@ -170,28 +188,18 @@ theorem outer_span_false_empty_child :
     obtain ⟨h1, _, h3, _⟩ := hv
     exact ⟨wEmpty, s, 10, r, hrun, hns, hl, hc, hs, by rw [h1, h3]; decide⟩
 
-/-- **outer_span_partial** (current code): if no task is created inside a request (sequential nesting: every
-    sub-request context is opened and closed by the client's own task, as deep as you like, any number of
-    clients interleaved) and no nested context exits without a start and an end, then every context whose
-    strict descendants have exited carries the earliest start and the latest end of the wire requests
-    issued on its behalf. -/
-theorem outer_span_partial (evs : List CEv) (s : St) (c : Nat) (r : Rec)
+/-- what did hold for the pre-fix code: if no task is created inside a request (sequential nesting, any depth, any
+    number of clients interleaved) and no nested context exits without a start and an end, every settled context
+    carries the earliest start and the latest end of the wire requests issued on its behalf. -/
+theorem outer_span_partial_pinned (evs : List CEv) (s : St) (c : Nat) (r : Rec)
     (hrun : runCtx false evs = .ok s) (hseq : ∀ e ∈ evs, e.isSpawn = false) (hne : s.emptyClose = false)
     (hc : s.ctxs c = some r) (hset : settled s c = true) :
     r.getStart = specStart s c ∧ r.getStop = specStop s c :=
   seq_settled (seq_runFrom seq_init hrun hseq hne) hc hset
 
-/-! ### the proposed patch (`update_request_start/_end` keep the minimum / maximum and ignore `None`) -/
+/-! ### the hypotheses are satisfiable by non-trivial inputs (current code) -/
 
-/-- **outer_span for the patched code — the full statement**: for every tree of nested contexts, every number of
-    tasks and clients, every admissible interleaving: once every strict descendant of a context has exited (and
-    nothing was written into an exited context), it carries the earliest start and the latest end of all wire
-    requests issued on its behalf. -/
-theorem outer_span_patched : OuterSpan true := by
-  intro evs s c r hrun hl hc hset
-  exact pinv_settled (pinv_runFrom pinv_init hrun hl) hc hset
-
-/-- the three witnesses against the current code come out right under the patch -/
+/-- the three historical witnesses come out right: hypotheses of `outer_span` hold, values = specification -/
 example : chk true wStart (fun s => !s.late && settled s 10 &&
     view s 10 == some (some 1, some 5, some 1, some 5)) = true := by decide
 example : chk true wEnd (fun s => !s.late && settled s 10 &&
@@ -199,22 +207,26 @@ example : chk true wEnd (fun s => !s.late && settled s 10 &&
 example : chk true wEmpty (fun s => !s.late && settled s 10 &&
     view s 10 == some (some 1, some 2, some 1, some 2)) = true := by decide
 
-/-! ### the hypotheses are satisfiable by non-trivial inputs -/
-
 /-- two clients interleaved, each with nested sequential sub-requests three levels deep -/
 def exSeq : List CEv :=
   [.client 0, .client 1, .open_ 0 10, .open_ 1 20, .open_ 0 11, .wireStart 0 1, .open_ 1 21, .wireStart 1 1,
    .wireEnd 0 2, .open_ 0 12, .wireStart 0 3, .wireEnd 1 4, .wireEnd 0 4, .wireEnd 0 6, .close 0, .close 0,
    .close 1, .open_ 0 13, .wireStart 0 7, .wireEnd 0 9, .close 0, .wireStart 1 9, .wireEnd 1 10]
 
-example : chk false exSeq (fun s =>
-    exSeq.all (fun e => !e.isSpawn) && !s.emptyClose && settled s 10 && settled s 20 && settled s 11 &&
+example : chk true exSeq (fun s => !s.late && settled s 10 && settled s 20 && settled s 11 &&
     view s 10 == some (some 1, some 9, some 1, some 9) &&
     view s 20 == some (some 1, some 10, some 1, some 10)) = true := by decide
 
-/-- a leaf context written by two concurrent tasks, next to a sibling: it carries its own requests only -/
-example : chk false wStart (fun s => isLeaf s 11 && isLeaf s 12 && !isLeaf s 10 &&
-    directTimes s.log true 11 == [1] && directTimes s.log false 12 == [3]) = true := by decide
+/-- the same trace satisfies the hypotheses of the historical `outer_span_partial_pinned` -/
+example : chk false exSeq (fun s =>
+    exSeq.all (fun e => !e.isSpawn) && !s.emptyClose && settled s 10 && settled s 20 &&
+    view s 10 == some (some 1, some 9, some 1, some 9)) = true := by decide
+
+/-- leaf contexts next to a sibling, written by concurrent tasks: each carries its own requests only -/
+example : chk true wStart (fun s => isLeaf s 11 && isLeaf s 12 && !isLeaf s 10 &&
+    directTimes s.log true 11 == [1] && directTimes s.log false 12 == [3] &&
+    view s 11 == some (some 1, some 5, some 1, some 5) &&
+    view s 12 == some (some 2, some 3, some 2, some 3)) = true := by decide
 
 /-- client 0 (tasks 0,1,2) of `wStart` interleaved with a second client: the projection is `wStart` itself -/
 def exTwo : List CEv :=
@@ -223,7 +235,8 @@ def exTwo : List CEv :=
    .close 1, .close 7]
 
 example : exTwo.filter (fun e => (fun τ => decide (τ < 7)) e.task) = wStart := by decide
-example : chk false exTwo (fun s => view s 70 == some (some 0, some 2, some 0, some 2)) = true := by decide
+example : chk true exTwo (fun s => view s 70 == some (some 0, some 2, some 0, some 2) &&
+    view s 10 == some (some 1, some 5, some 1, some 5)) = true := by decide
 example : ∀ p c, CEv.spawn p c ∈ exTwo → (fun τ => decide (τ < 7)) c = (fun τ => decide (τ < 7)) p := by
   intro p c h
   simp only [exTwo, List.mem_cons, List.not_mem_nil, or_false, reduceCtorEq, false_or, CEv.spawn.injEq] at h
